@@ -179,6 +179,19 @@ impl Tileset<RawPixels> {
         let base_index = reader.short()?;
         reader.skip_reserved(14)?;
         let name = reader.string()?;
+        if tile_width == 0 || tile_height == 0 {
+            return Err(AsepriteParseError::InvalidInput(format!(
+                "Tileset {} has an empty tile size: {}x{}",
+                id, tile_width, tile_height
+            )));
+        }
+        // The image of the whole tileset has all tiles stacked vertically.
+        if tile_count as u64 * tile_height as u64 > u32::MAX as u64 {
+            return Err(AsepriteParseError::InvalidInput(format!(
+                "Tileset {} is too large: {} tiles of height {}",
+                id, tile_count, tile_height
+            )));
+        }
 
         let external_file = {
             if !flags.contains(TilesetFlags::LINKS_EXTERNAL_FILE) {
